@@ -729,6 +729,18 @@ def enumerate_cases(base_seed, tier):
                 out.append({'property': PID, 'seed': core.h64('C17-pair', fam, w, x, variant),
                             'swarm': {'scrub': False, 'base': 'minimal', 'exec_ref': False, 'hashseed': 1},
                             'ops': [gjob([w]), gjob(bblocks)]})
+    # every construct that can be left open at the end of input (cut 999: the input just ends; 998: \end{document}
+    # arrives while it is open), followed by the readers of its family and a few general ones
+    for o in OPENERS:
+        fam = BLOCKS[o][0]
+        readers = [b for b in BLOCK_IDS if BLOCKS[b][0] == fam and BLOCKS[b][1] == 'R'][:4]
+        for b in ('open_readers', 'list_enum', 'math_display'):
+            if b not in readers:
+                readers.append(b)
+        for cut in (999, 998):
+            out.append({'property': PID, 'seed': core.h64('C17-open', o, cut),
+                        'swarm': {'scrub': False, 'base': 'minimal', 'exec_ref': False, 'hashseed': 1},
+                        'ops': [dict(gjob(['textbf', o]), cut=cut), gjob(readers)]})
     for ia, a in enumerate(CORPUS):
         for ib, b in enumerate(CORPUS):
             def job(rel):
